@@ -84,3 +84,24 @@ def kmers_present(c):
     c.mutant("stop = seq_length + stop", "stop = seq_length + stop + 1")
     c.mutant("if start < 0:\n                start = 0", "if start < 0:\n                start = 1")
     c.mutant("elif start > seq_length", "elif start > seq_length + 1")
+
+
+def classify_loss(f):
+    """Known classes of prefilter losses (see known_findings.jsonl); anything else is a new violation."""
+    inp = f.get("input") or {}
+    obs = f.get("observed", "")
+    kind = inp.get("kind")
+    if kind == "anywhere" and len(inp.get("read", "")) < len(inp.get("adapter", "")):
+        return "bounded:prefilter:anywhere_read_shorter_than_adapter"
+    if kind in ("prefix", "suffix", "front_ni", "back_ni") and inp.get("indels"):
+        return "bounded:prefilter:anchored_or_noninternal_with_indels"
+    return None
+
+
+def extra_checks(res, tier, seed, known, log):
+    from pyvc import runner
+    runner.runtime_standin(res, "C07", "c07", "kmers_present", seed, 3000 if tier == "quick" else 40000, 40 if tier == "quick" else 300,
+                           asan=True, label="kmers_present vs Python slice semantics under AddressSanitizer")
+    runner.runtime_standin(res, "C07", "c01", "match_to", seed, 6000 if tier == "quick" else 100000, 60 if tier == "quick" else 900,
+                           prefix="C07:", classify=classify_loss, known=known,
+                           label="match_to with the k-mer prefilter vs with the always-true finder, all eight adapter types")
